@@ -39,7 +39,8 @@ def rule(tier):
 def floors(tier):
     return {"evaluations": 9000, "distinct": 9000,
             "counters": {"twin_calls": 3000, "rejections_observed": 1500, "growth_cases": 200, "iteration_calls": 9000, "a1_spellings_noncanonical": 80,
-                         "negative_positions": 500, "beyond_limit_positions": 300, "large_growth_cases": 2, "contract:a1_inverse.parse": 1000}}
+                         "negative_positions": 500, "beyond_limit_positions": 300, "large_growth_cases": 2, "contract:a1_inverse.parse": 1000,
+                         "history_position_calls": 5000, "history_structural_ops": 1500, "history_repeated_positions": 2500}}
 
 
 SHAPES = [(3, 3), (1, 1), (12, 8)]
@@ -62,6 +63,8 @@ def plan(tier, seed):
         for it in ("iter_rows", "iter_cols"):
             specs.append({"part": "iter", "shape": si, "iterator": it, "tier": tier, "seed": seed})
     specs.append({"part": "spellings", "tier": tier, "seed": seed})
+    for i in range(8 if tier == "quick" else 32):
+        specs.append({"part": "histories", "stream": i, "n": 60 if tier == "quick" else 1000, "tier": tier, "seed": seed})
     return specs
 
 
@@ -447,16 +450,132 @@ def run_iter(spec, rec):
     rec.sample({"iterator": it, "shape": [R, C], "calls": n})
 
 
+def history_case(case, rec):
+    """Twin tables through one random history: structural edits (identical on both) interleaved with position-taking calls, the A1
+    form on one twin and the row/column form on the other.  The same position text is used again after the table changed
+    shape: what a position means is decided when the call is made, not when the text was first seen."""
+    from numbers_parser import RGB, Border
+    from vf.ref import a1
+    rng = random.Random(case["rseed"])
+    R, C = rng.randint(4, 8), rng.randint(3, 6)
+    _, ta, sa = mk(R, C)
+    _, tb, sb = mk(R, C)
+    border = Border(2.0, RGB(1, 2, 3), "solid")
+    hot = [(rng.randrange(R), rng.randrange(C)) for _ in range(3)]  # positions asked for again and again
+    log = []
+    for step in range(case["steps"]):
+        k = rng.random()
+        R, C = tb.num_rows, tb.num_cols
+        if k < .3 and step:
+            which = rng.choice(["add_row", "delete_row", "add_column", "delete_column", "merge"])
+            try:
+                with warnings.catch_warnings():
+                    warnings.simplefilter("ignore")
+                    if which == "add_row":
+                        kw = {"num_rows": rng.randint(1, 2), "start_row": rng.randrange(R)}
+                        ta.add_row(**kw); tb.add_row(**kw)
+                    elif which == "delete_row" and R > 3:
+                        kw = {"num_rows": 1, "start_row": rng.choice([0, R - 1, rng.randrange(R)])}
+                        ta.delete_row(**kw); tb.delete_row(**kw)
+                    elif which == "add_column":
+                        kw = {"num_cols": 1, "start_col": rng.randrange(C)}
+                        ta.add_column(**kw); tb.add_column(**kw)
+                    elif which == "delete_column" and C > 3:
+                        kw = {"num_cols": 1, "start_col": rng.choice([0, C - 1, rng.randrange(C)])}
+                        ta.delete_column(**kw); tb.delete_column(**kw)
+                    else:
+                        continue
+                log.append([which, kw])
+                rec.count("history_structural_ops")
+            except Exception as e:  # noqa: BLE001 - C03's business; the history ends here
+                rec.note(f"C11 history: structural op raised {type(e).__name__}")
+                return
+            continue
+        r, c = rng.choice(hot) if rng.random() < .6 else (rng.randrange(R), rng.randrange(C))
+        if r >= R or c >= C:
+            method = "cell"  # outside now: both forms must raise IndexError
+        else:
+            method = rng.choice(["cell", "cell", "write", "style", "format", "border"])
+        name = a1.cell_name(r, c)
+        log.append([method, r, c])
+
+        def call(t, st, pos):
+            with warnings.catch_warnings():
+                warnings.simplefilter("ignore")
+                try:
+                    if method == "cell":
+                        x = t.cell(*pos)
+                        return ("ok", x.row, x.col, repr(x.value), type(x).__name__)
+                    if method == "write":
+                        t.write(*pos, f"W{step}")
+                    elif method == "style":
+                        t.set_cell_style(*pos, st)
+                    elif method == "format":
+                        t.set_cell_formatting(*pos, "number", decimal_places=2)
+                    else:
+                        t.set_cell_border(*pos, "top", border)
+                    return ("ok",)
+                except IndexError:
+                    return ("IndexError",)
+                except Exception as e:  # noqa: BLE001
+                    return ("exc", type(e).__name__)
+        oa, ob = call(ta, sa, (name,)), call(tb, sb, (r, c))
+        rec.count("history_position_calls")
+        if (r, c) in hot:
+            rec.count("history_repeated_positions")
+        fx = {"method": method, "after_structural": any(x[0] in ("add_row", "delete_row", "add_column", "delete_column") for x in log[:-1])}
+        if oa != ob:
+            rec.violation("a1_vs_rowcol_outcome", {**fx, "a1": oa[0], "rowcol": ob[0]}, {"pos": [r, c], "a1": name, "got_a1": list(oa), "got_rowcol": list(ob), "log": log[-8:]}, case=case)
+            return
+        if method == "cell" and oa[0] == "ok" and (oa[1], oa[2]) != (r, c):
+            rec.violation("cell_reports_other_position", fx, {"pos": [r, c], "got": list(oa), "log": log[-8:]}, case=case)
+            return
+        if r >= R or c >= C:
+            if oa[0] != "IndexError":
+                rec.violation("position_not_rejected", {**fx, "outcome": oa[0]}, {"pos": [r, c], "shape": [R, C], "log": log[-8:]}, case=case)
+                return
+            continue
+        if oa[0] == "ok" and method in ("write", "border", "style"):
+            # the addressed cell - the one cell(r, c) returns - carries what was just done, on both twins
+            for t in (ta, tb):
+                x = t.cell(r, c)
+                good = {"write": lambda: x.value == f"W{step}", "style": lambda: x.style is not None and x.style.name == "VF",
+                        "border": lambda: x.border.top is not None and abs(x.border.top.width - 2.0) < 1e-9}[method]()
+                if not good:
+                    rec.violation("call_acted_on_another_cell", fx, {"pos": [r, c], "twin": "a1" if t is ta else "rowcol", "log": log[-8:]}, case=case)
+                    return
+        if step % 6 == 5:
+            if snapshot(ta) != snapshot(tb):
+                rec.violation("twin_tables_differ", fx, {"log": log[-8:]}, case=case)
+                return
+    if snapshot(ta) != snapshot(tb):
+        rec.violation("twin_tables_differ", {"method": "final", "after_structural": True}, {"log": log[-8:]}, case=case)
+    rec.case(("history", case["rseed"]), nontrivial=True)
+
+
+def run_histories(spec, rec):
+    rng = random.Random(f"C11-hist-{spec['seed']}-{spec['stream']}")
+    for i in range(spec["n"]):
+        case = {"part": "history", "rseed": rng.randrange(1 << 40), "steps": rng.randint(12, 40)}
+        history_case(case, rec)
+        if i == 0:
+            rec.sample({"history": case})
+
+
 def run_shard(spec, rec):
     if "cases" in spec:
         for c in spec["cases"]:
             replay(c, rec)
         return
+    if spec["part"] == "histories":
+        return run_histories(spec, rec)
     {"reject": run_reject, "grow": run_grow, "big": run_big, "iter": run_iter, "spellings": run_spellings}[spec["part"]](spec, rec)
 
 
 def replay(case, rec):
     p = case.get("part")
+    if p == "history":
+        return history_case(case, rec)
     if p == "twin":
         twin_case(case["method"], case["r"], case["c"], case["shape"][0], case["shape"][1], rec, a1form=case.get("a1form", "canonical"))
     elif p == "big":
